@@ -5,7 +5,9 @@ M, RMAX = S.M, S.RMAX
 
 AMBIENT = [("dps", 3), ("dps", 15), ("dps", 30), ("dps", 50), ("dps", 200),
            ("prec", 24), ("prec", 53), ("prec", 64), ("workdps", 5), ("workdps", 100),
-           ("workprec", 20)]
+           ("workprec", 20),
+           # the caller's `decimal` context is an ambient arbitrary-precision setting as well
+           ("decimal", 9), ("decimal", 5), ("decimal-trap-inexact", 28)]
 
 
 class Ambient:
@@ -27,6 +29,14 @@ class Ambient:
         elif self.kind == "workprec":
             self._cm = mpmath.workprec(self.value)
             self._cm.__enter__()
+        elif self.kind.startswith("decimal"):
+            import decimal
+            self._cm = decimal.localcontext()
+            ctx = self._cm.__enter__()
+            ctx.prec = self.value
+            if self.kind == "decimal-trap-inexact":
+                ctx.traps[decimal.Inexact] = True
+                ctx.traps[decimal.Rounded] = True
         return self
 
     def __exit__(self, *exc):
@@ -75,10 +85,34 @@ def by_keyword(fn, args):
     return fn(**dict(zip(names, args)))
 
 
+class _Word(str):
+    """A str subclass whose text rendering is not its value (like an Enum member's)."""
+
+    def __str__(self):
+        return "Word(%s)" % str.__str__(self)
+
+    __repr__ = __str__
+
+
+def _enum_clear():
+    import enum
+
+    class AccumMode(str, enum.Enum):
+        CLEAR = "clear"
+    return AccumMode.CLEAR
+
+
 def fresh_clear(rng):
     """The word 'clear' as a string object created at run time (read from a file, a JSON field,
-    .lower(), a str subclass ...): equal to the literal, but not the same interned object."""
-    c = rng.randrange(4)
+    .lower(), a str subclass, a (str, Enum) member ...): equal to the literal, but not the same
+    interned object, and possibly with another str()/repr()."""
+    c = rng.randrange(7)
+    if c == 4:
+        return _Word("clear")
+    if c == 5:
+        return _enum_clear()
+    if c == 6:
+        return type("Tag", (str,), {})("clear")
     if c == 0:
         return "".join(["cl", "ear"])
     if c == 1:
